@@ -783,6 +783,7 @@ func (e *env) recv(l int, tok, rk string, to int, amt int64, memo string, snd in
 	rel0 := e.relSet()
 	saved := s.Ctx
 	cctx, write := saved.CacheContext()
+	cctx = cctx.WithEventManager(sdk.NewEventManager()) // the hook reports the coin it believes it received in an event
 	ackS := "err"
 	var res string
 	if e.core {
@@ -875,6 +876,35 @@ func (e *env) recv(l int, tok, rk string, to int, amt int64, memo string, snd in
 	}
 	if !relFrame(rel0, e.relSet(), "", "") {
 		e.out.Violate("recv: an inbound packet changed the tracking records of outbound transfers")
+	}
+	// the denomination the middleware BELIEVES it received (its `receive` event, emitted right after parseIBCCoinDenom;
+	// real IBC core re-emits the events of a failed callback under a prefixed type) is the one the application credited
+	hookDenom := ""
+	for _, ev := range cctx.EventManager().Events() {
+		if strings.HasSuffix(ev.Type, ibcmwtypes.EventTypeReceive) {
+			for _, at := range ev.Attributes {
+				if strings.HasSuffix(at.Key, transfertypes.AttributeKeyAmount) { // real core prefixes type AND keys of a failed callback's events
+					if c, err := sdk.ParseCoinNormalized(at.Value); err == nil {
+						hookDenom = c.Denom
+					}
+				}
+			}
+		}
+	}
+	switch {
+	case hookDenom == "":
+		e.out.Count(fmt.Sprintf("recv-hook-denom:hook-not-reached:ack=%s:core=%v:receiver=%s:amount-zero=%v", ackS, e.core, rk, amt == 0))
+	case hookDenom == den:
+		e.out.Count("recv-hook-denom:same-as-credited")
+	default:
+		e.out.Count("recv-hook-denom:DIFFERENT")
+		short := func(d string) string {
+			if len(d) > 12 {
+				return d[:12]
+			}
+			return d
+		}
+		e.out.Violate(fmt.Sprintf("recv: the middleware took the received coin for `%s` while the transfer application credited `%s` (packet denom %s, ack=%s, %s)", short(hookDenom), short(den), pd, ackS, class))
 	}
 	// nobody who did not sign loses anything through an inbound packet: the only account an inbound packet debits is the
 	// channel's escrow account
